@@ -295,20 +295,1023 @@ theorem applyK_out (nn : Bool) (c : Comp) (path : Path) (r : Res) (S : Store) :
 theorem complete_out (nn : Bool) (c : Comp) (path : Path) (S : Store) :
     (complete nn c path S).1.out = Spec.comp nn c path := complete_out_aux.1 nn c path S
 
+/-! ## §3 weights: the two non-structural calls of `poll` always satisfy their guard -/
+
+theorem Fut.weight_pos (f : Fut) : 1 ≤ f.weight := by
+  cases f <;> simp [Fut.weight] <;> omega
+
+theorem mkMap_weight (fn : MapFn) (f : Fut) (S : Store) : (mkMap fn f S).1.weight ≤ 1 + f.weight := by
+  cases f <;> simp [mkMap, Fut.weight]
+
+theorem mkMapOk_weight (fn : OkFn) (f : Fut) (S : Store) : (mkMapOk fn f S).1.weight ≤ 1 + f.weight := by
+  cases f with
+  | ready r => cases r <;> simp [mkMapOk, Fut.weight]
+  | _ => simp [mkMapOk, Fut.weight]
+
+theorem mkMapOkToAny_weight (f : Fut) : (mkMapOkToAny f).weight ≤ 1 + f.weight := by
+  cases f <;> simp [mkMapOkToAny, Fut.weight]
+
+theorem mkMapOkValue_weight (v : Val) (f : Fut) : (mkMapOkValue v f).weight ≤ 1 + f.weight := by
+  cases f with
+  | ready r => cases r <;> simp [mkMapOkValue, Fut.weight]
+  | _ => simp [mkMapOkValue, Fut.weight]
+
+theorem mkJoin_weight (fs : List Fut) : (mkJoin fs).weight ≤ 1 + Fut.weightL fs := by
+  unfold mkJoin; split <;> simp [Fut.weight]
+
+theorem mkAfter_weight (fs : List Fut) : (mkAfter fs).weight ≤ 1 + Fut.weightL fs := by
+  unfold mkAfter; split <;> simp [Fut.weight]
+
+theorem construct_weight_aux :
+    (∀ t S, (construct t S).1.weight ≤ t.weight) ∧
+    (∀ ts S, Fut.weightL (constructAll ts S).1 ≤ Fut.weightL ts) := by
+  apply construct.mutual_induct
+    (motive_1 := fun t S => (construct t S).1.weight ≤ t.weight)
+    (motive_2 := fun ts S => Fut.weightL (constructAll ts S).1 ≤ Fut.weightL ts)
+  case case9 =>
+    intro S tag a b t S1 r S2 h x ih2 ih1
+    simp only [construct, x, h, Fut.weight, Fut.weightO, if_true]
+    have : (construct a (S1.push (Entry.note ("then:" ++ tag ++ ":" ++ showRes r)))).1.weight ≤ a.weight := ih1
+    omega
+  case case10 =>
+    intro S tag a b t S1 r S2 h x ih2 ih1
+    simp only [construct, x, h, Fut.weight, Fut.weightO]
+    have : (construct b (S1.push (Entry.note ("then:" ++ tag ++ ":" ++ showRes r)))).1.weight ≤ b.weight := ih1
+    simp only [Bool.false_eq_true, if_false]
+    omega
+  case case11 =>
+    intro S tag a b t f S1 x hnr ih
+    have hc : (construct (Fut.thenT tag a b t none) S) = (Fut.thenT tag a b f none, S1) := by
+      simp only [construct, x]
+    rw [x] at ih
+    simp only [hc, Fut.weight, Fut.weightO]
+    simp only at ih
+    omega
+  all_goals intros
+  all_goals simp_all only [construct, constructAll, Fut.weight, Fut.weightL, Fut.weightO]
+  all_goals first
+    | omega
+    | (have := mkMap_weight ‹MapFn› ‹Fut› ‹Store›; omega)
+    | (have := mkMapOk_weight ‹OkFn› ‹Fut› ‹Store›; omega)
+    | (have := mkMapOkToAny_weight ‹Fut›; omega)
+    | (have := mkMapOkValue_weight ‹Val› ‹Fut›; omega)
+    | (have := mkJoin_weight ‹List Fut›; omega)
+    | (have := mkAfter_weight ‹List Fut›; omega)
+    | skip
+
+theorem construct_weight (t : Fut) (S : Store) : (construct t S).1.weight ≤ t.weight := construct_weight_aux.1 t S
+
+theorem nonNullWrap_weight (nn : Bool) (path : Path) (f : Fut) (S : Store) :
+    (nonNullWrap nn path f S).1.weight ≤ 1 + f.weight := by
+  unfold nonNullWrap; cases nn <;> simp
+  exact mkMap_weight _ _ _
+
+theorem catchIfNullable_weight (nn : Bool) (f : Fut) (S : Store) :
+    (catchIfNullable nn f S).1.weight ≤ 1 + f.weight := by
+  unfold catchIfNullable; cases nn <;> simp
+  exact mkMap_weight _ _ _
+
+theorem execField_weight (nn : Bool) (mode : Mode) (rerr : Option String) (c : Comp) (itemPath : Path)
+    (completed : Store → Fut × Store) (S : Store) (hc : ∀ S', (completed S').1.weight ≤ c.weight)
+    (_hpos : 1 ≤ c.weight) :
+    (execField nn mode rerr c itemPath completed S).1.weight ≤ c.weight + 2 := by
+  unfold execField
+  cases mode <;> cases rerr <;> simp [Fut.weight, Fut.weightO] <;> first | omega | (have := hc (S.push (.start itemPath)); omega)
+
+theorem Comp.weight_pos (c : Comp) : 1 ≤ c.weight := by
+  cases c <;> simp [Comp.weight] <;> omega
+
+theorem weightL_append_one (acc : List Fut) (g : Fut) : Fut.weightL (acc ++ [g]) = Fut.weightL acc + 1 + g.weight := by
+  induction acc with
+  | nil => simp [Fut.weightL]
+  | cons a acc ih => simp [Fut.weightL, ih]; omega
+
+theorem complete_weight_aux :
+    (∀ nn c path S, (complete nn c path S).1.weight ≤ c.weight) ∧
+    (∀ fields path n i acc S, (execFields fields path n i acc S).1.weight ≤ 2 + Fut.weightL acc + Field.weightL fields) ∧
+    (∀ inn items path i S, Fut.weightL (completeItems inn items path i S).1 ≤ Comp.weightL items) := by
+  apply complete.mutual_induct
+    (motive_1 := fun nn c path S => (complete nn c path S).1.weight ≤ c.weight)
+    (motive_2 := fun fields path n i acc S =>
+      (execFields fields path n i acc S).1.weight ≤ 2 + Fut.weightL acc + Field.weightL fields)
+    (motive_3 := fun inn items path i S => Fut.weightL (completeItems inn items path i S).1 ≤ Comp.weightL items)
+  · intro nn path S
+    have := nonNullWrap_weight nn path (.ready (.ok .null)) S
+    simp [complete, Comp.weight, Fut.weight] at *; omega
+  · intro nn path S a
+    have := nonNullWrap_weight nn path (.ready (.ok (.scalar a))) S
+    simp [complete, Comp.weight, Fut.weight] at *; omega
+  · intro nn path S a
+    have := nonNullWrap_weight nn path (.ready (.err ⟨path, a⟩)) S
+    simp [complete, Comp.weight, Fut.weight] at *; omega
+  · intro nn path S inn items fs S1 h ih
+    rw [h] at ih; simp only at ih
+    have h1 := nonNullWrap_weight nn path (mkMapOkToAny (mkJoin fs)) S1
+    have h2 := mkMapOkToAny_weight (mkJoin fs)
+    have h3 := mkJoin_weight fs
+    simp only [complete, h, Comp.weight]; omega
+  · intro nn path S fields f S1 h ih
+    rw [h] at ih; simp only [Fut.weightL] at ih
+    have h1 := nonNullWrap_weight nn path (mkMapOkToAny f) S1
+    have h2 := mkMapOkToAny_weight f
+    simp only [complete, h, Comp.weight]; omega
+  · intro inn path i S; simp [completeItems, Fut.weightL]
+  · intro inn path i S c rest f S1 h1 f1 S11 h2 fs S2 h3 ih1 ih2
+    rw [h1] at ih1; rw [h3] at ih2; simp only at ih1 ih2
+    have hc := catchIfNullable_weight inn f S1
+    rw [h2] at hc; simp only at hc
+    simp only [completeItems, h1, h2, h3, Fut.weightL, Comp.weightL]; omega
+  · intro path n i acc S
+    have h1 := mkMapOkValue_weight (.obj path n) (mkAfter acc)
+    have h2 := mkAfter_weight acc
+    simp only [execFields, Field.weightL]; omega
+  · intro path n i acc S key nn rerr c rest ih
+    rw [execFields_tname]; simp only [Field.weightL]; omega
+  · intro path n i acc S key nn mode rerr c rest itemPath f S1 h1 S11 e hm h2 ihc
+    have hm' : mode ≠ .tname := fun h => hm h
+    rw [execFields_cons path key nn mode rerr c rest n i acc S S1 S11 f _ hm' h1 h2]
+    simp only [fieldCont, Fut.weight]; omega
+  · intro path n i acc S key nn mode rerr c rest itemPath f S1 h1 S11 v hm h2 ihc ih
+    have hm' : mode ≠ .tname := fun h => hm h
+    rw [execFields_cons path key nn mode rerr c rest n i acc S S1 S11 f _ hm' h1 h2]
+    simp only [fieldCont, Field.weightL]; omega
+  · intro path n i acc S key nn mode rerr c rest itemPath f S1 h1 S11 f1 hne hno hm h2 ihc ih
+    have hm' : mode ≠ .tname := fun h => hm h
+    have hf := execField_weight nn mode rerr c itemPath (fun S' => complete nn c itemPath S') S ihc (Comp.weight_pos c)
+    rw [h1] at hf; simp only at hf
+    have hc := catchIfNullable_weight nn f S1
+    rw [h2] at hc; simp only at hc
+    rw [execFields_cons path key nn mode rerr c rest n i acc S S1 S11 f f1 hm' h1 h2]
+    have hshape : fieldCont rest path n i acc key f1 S11 =
+        execFields rest path n (i + 1) (acc ++ [Fut.mapOk (OkFn.setSlot path i key) f1]) S11 := by
+      unfold fieldCont
+      split
+      · exact absurd rfl (hne _)
+      · exact absurd rfl (hno _)
+      · rfl
+    rw [hshape]
+    rw [weightL_append_one] at ih
+    simp only [Fut.weight, Field.weightL] at *; omega
+
+theorem complete_weight (nn : Bool) (c : Comp) (path : Path) (S : Store) :
+    (complete nn c path S).1.weight ≤ c.weight := complete_weight_aux.1 nn c path S
+
+/-- The guard of `poll`'s `thenK` branch always holds. -/
+theorem applyK_weight (nn : Bool) (c : Comp) (path : Path) (r : Res) (S : Store) (g : Fut) :
+    (applyK nn c path r S).1.weight < (Fut.thenK nn c path g none).weight := by
+  have := Fut.weight_pos g
+  cases r with
+  | ok v => have := complete_weight nn c path S; simp [applyK, Fut.weight, Fut.weightO]; omega
+  | err e => simp [applyK, Fut.weight, Fut.weightO]; omega
+
+/-- The guard of `poll`'s `thenT` branch always holds. -/
+theorem thenT_built_weight (tag : String) (a b g : Fut) (r : Res) (S : Store) :
+    (if r.isOk = true then construct a S else construct b S).1.weight < (Fut.thenT tag a b g none).weight := by
+  have := Fut.weight_pos g
+  have ha := construct_weight a S
+  have hb := construct_weight b S
+  split <;> simp [Fut.weight, Fut.weightO] <;> omega
+
+theorem applyOk_fst' (fn : OkFn) (v : Val) (S : Store) : (applyOk fn v S).1 = .null := by
+  cases fn; simp [applyOk]
+
+@[simp] theorem applyOk_fst (fn : OkFn) (v : Val) (S : Store) : (applyOk fn v S).1 = .null := by
+  cases fn; simp [applyOk]
+
+theorem thenT_built_out (r : Res) (a b : Fut) (S : Store) :
+    (if r.isOk = true then construct a S else construct b S).1.out =
+      (match r.out with | .ok _ => a.out | .fail => b.out) := by
+  cases r <;> simp [Res.isOk, Res.out, construct_out]
+
 /-- Subject reduction: polling does not change what a future will resolve to, and a reported
     result is that outcome. -/
 theorem poll_out_aux :
-    (∀ f S, ∀ f' S' o, poll f S = (f', S', o) → f'.out = f.out ∧ (∀ r, o = some r → r.out = f.out)) ∧
-    (∀ fs S, ∀ fs' S' p, pollAll fs S = (fs', S', p) →
-      Fut.outs fs' = Fut.outs fs ∧ (∀ e, p = .failed e → Fut.outs fs = none) ∧
-      (∀ vs, p = .done vs → Fut.outs fs = some vs)) := by
+    (∀ f S, (poll f S).1.out = f.out ∧ (∀ r, (poll f S).2.2 = some r → r.out = f.out)) ∧
+    (∀ fs S, Fut.outs (pollAll fs S).1 = Fut.outs fs ∧
+      (∀ e, (pollAll fs S).2.2 = .failed e → Fut.outs fs = none) ∧
+      (∀ vs, (pollAll fs S).2.2 = .done vs → Fut.outs fs = some vs)) := by
   apply poll.mutual_induct
-    (motive1 := fun f S => ∀ f' S' o, poll f S = (f', S', o) → f'.out = f.out ∧ (∀ r, o = some r → r.out = f.out))
-    (motive2 := fun fs S => ∀ fs' S' p, pollAll fs S = (fs', S', p) →
-      Fut.outs fs' = Fut.outs fs ∧ (∀ e, p = .failed e → Fut.outs fs = none) ∧
-      (∀ vs, p = .done vs → Fut.outs fs = some vs))
+    (motive1 := fun f S => (poll f S).1.out = f.out ∧ (∀ r, (poll f S).2.2 = some r → r.out = f.out))
+    (motive2 := fun fs S => Fut.outs (pollAll fs S).1 = Fut.outs fs ∧
+      (∀ e, (pollAll fs S).2.2 = .failed e → Fut.outs fs = none) ∧
+      (∀ vs, (pollAll fs S).2.2 = .done vs → Fut.outs fs = some vs))
   all_goals intros
-  all_goals simp_all [poll, pollAll, Fut.out, Fut.outs, outOk, Res.out]
+  all_goals simp_all +zetaDelta [poll, pollAll, Fut.out, Fut.outs, outOk, Res.out]
   all_goals (try grind [applyMap_out, applyK_out, construct_out, Res.out, Fut.out, outOk])
+  · rename_i fn g fst S1 v x1 v' S' x ih
+    have := applyOk_fst fn v S1
+    rw [x] at this; simp only at this; subst this
+    rw [← ih.2]
+  · rename_i x ih2 ih1
+    rw [thenT_built_out, ← ih2.2]
+    rename_i r _ _ _ _
+    cases r <;> rfl
+  · rename_i x ih2 ih1
+    rw [thenT_built_out, ← ih2.2]
+    rename_i r _ _ _
+    cases r <;> rfl
+
+theorem poll_out (f : Fut) (S : Store) : (poll f S).1.out = f.out := (poll_out_aux.1 f S).1
+
+theorem poll_result_out (f : Fut) (S : Store) (r : Res) (h : (poll f S).2.2 = some r) : r.out = f.out :=
+  (poll_out_aux.1 f S).2 r h
+
+/-! ## §3b a tidier induction principle for `poll`, and its unfolding equations -/
+
+theorem poll_map_some {fn : MapFn} {g g' : Fut} {S S1 : Store} {r : Res} (h : poll g S = (g', S1, some r)) :
+    poll (.map fn g) S = (.ready (applyMap fn r S1).1, (applyMap fn r S1).2, some (applyMap fn r S1).1) := by
+  simp [poll, h]
+
+theorem poll_map_none {fn : MapFn} {g g' : Fut} {S S1 : Store} (h : poll g S = (g', S1, none)) :
+    poll (.map fn g) S = (.map fn g', S1, none) := by
+  simp [poll, h]
+
+theorem poll_mapOk_ok {fn : OkFn} {g g' : Fut} {S S1 : Store} {v : Val} (h : poll g S = (g', S1, some (.ok v))) :
+    poll (.mapOk fn g) S = (.ready (.ok .null), (applyOk fn v S1).2, some (.ok .null)) := by
+  simp [poll, h, applyOk_fst']
+
+theorem poll_mapOk_err {fn : OkFn} {g g' : Fut} {S S1 : Store} {e : Err} (h : poll g S = (g', S1, some (.err e))) :
+    poll (.mapOk fn g) S = (.ready (.err e), S1, some (.err e)) := by
+  simp [poll, h]
+
+theorem poll_mapOk_none {fn : OkFn} {g g' : Fut} {S S1 : Store} (h : poll g S = (g', S1, none)) :
+    poll (.mapOk fn g) S = (.mapOk fn g', S1, none) := by
+  simp [poll, h]
+
+theorem poll_mapOkToAny_some {g g' : Fut} {S S1 : Store} {r : Res} (h : poll g S = (g', S1, some r)) :
+    poll (.mapOkToAny g) S = (.ready r, S1, some r) := by
+  simp [poll, h]
+
+theorem poll_mapOkToAny_none {g g' : Fut} {S S1 : Store} (h : poll g S = (g', S1, none)) :
+    poll (.mapOkToAny g) S = (.mapOkToAny g', S1, none) := by
+  simp [poll, h]
+
+theorem poll_mapOkValue_ok {v : Val} {g g' : Fut} {S S1 : Store} {w : Val} (h : poll g S = (g', S1, some (.ok w))) :
+    poll (.mapOkValue v g) S = (.ready (.ok v), S1, some (.ok v)) := by
+  simp [poll, h]
+
+theorem poll_mapOkValue_err {v : Val} {g g' : Fut} {S S1 : Store} {e : Err} (h : poll g S = (g', S1, some (.err e))) :
+    poll (.mapOkValue v g) S = (.ready (.err e), S1, some (.err e)) := by
+  simp [poll, h]
+
+theorem poll_mapOkValue_none {v : Val} {g g' : Fut} {S S1 : Store} (h : poll g S = (g', S1, none)) :
+    poll (.mapOkValue v g) S = (.mapOkValue v g', S1, none) := by
+  simp [poll, h]
+
+/-- `Then` of executeField: the promise did not deliver. -/
+theorem poll_thenK_wait {nn : Bool} {c : Comp} {path : Path} {g g' : Fut} {S S1 : Store}
+    (h : poll g S = (g', S1, none)) : poll (.thenK nn c path g none) S = (.thenK nn c path g' none, S1, none) := by
+  simp [poll, h]
+
+/-- … it delivered and the continuation's future resolved in the same poll. -/
+theorem poll_thenK_fire_some {nn : Bool} {c : Comp} {path : Path} {g g' t' : Fut} {S S1 S3 : Store} {r r' : Res}
+    (h : poll g S = (g', S1, some r))
+    (h2 : poll (applyK nn c path r S1).1 (applyK nn c path r S1).2 = (t', S3, some r')) :
+    poll (.thenK nn c path g none) S = (.ready r', S3, some r') := by
+  simp [poll, h, h2, applyK_weight nn c path r S1 g]
+
+/-- … it delivered and the continuation's future is still pending. -/
+theorem poll_thenK_fire_none {nn : Bool} {c : Comp} {path : Path} {g g' t' : Fut} {S S1 S3 : Store} {r : Res}
+    (h : poll g S = (g', S1, some r))
+    (h2 : poll (applyK nn c path r S1).1 (applyK nn c path r S1).2 = (t', S3, none)) :
+    poll (.thenK nn c path g none) S = (.thenK nn c path g' (some t'), S3, none) := by
+  simp [poll, h, h2, applyK_weight nn c path r S1 g]
+
+theorem poll_thenK_cont_some {nn : Bool} {c : Comp} {path : Path} {g t t' : Fut} {S S1 : Store} {r : Res}
+    (h : poll t S = (t', S1, some r)) : poll (.thenK nn c path g (some t)) S = (.ready r, S1, some r) := by
+  simp [poll, h]
+
+theorem poll_thenK_cont_none {nn : Bool} {c : Comp} {path : Path} {g t t' : Fut} {S S1 : Store}
+    (h : poll t S = (t', S1, none)) :
+    poll (.thenK nn c path g (some t)) S = (.thenK nn c path g (some t'), S1, none) := by
+  simp [poll, h]
+
+/-- The store and future a `thenT` continuation starts from. -/
+def thenTBuilt (tag : String) (a b : Fut) (r : Res) (S1 : Store) : Fut × Store :=
+  if r.isOk = true then construct a (S1.push (.note ("then:" ++ tag ++ ":" ++ showRes r)))
+  else construct b (S1.push (.note ("then:" ++ tag ++ ":" ++ showRes r)))
+
+theorem poll_thenT_wait {tag : String} {a b g g' : Fut} {S S1 : Store}
+    (h : poll g S = (g', S1, none)) : poll (.thenT tag a b g none) S = (.thenT tag a b g' none, S1, none) := by
+  simp [poll, h]
+
+theorem poll_thenT_fire_some {tag : String} {a b g g' t' : Fut} {S S1 S3 : Store} {r r' : Res}
+    (h : poll g S = (g', S1, some r))
+    (h2 : poll (thenTBuilt tag a b r S1).1 (thenTBuilt tag a b r S1).2 = (t', S3, some r')) :
+    poll (.thenT tag a b g none) S = (.ready r', S3, some r') := by
+  have hw := thenT_built_weight tag a b g r (S1.push (.note ("then:" ++ tag ++ ":" ++ showRes r)))
+  unfold thenTBuilt at h2
+  simp [poll, h, h2, hw]
+
+theorem poll_thenT_fire_none {tag : String} {a b g g' t' : Fut} {S S1 S3 : Store} {r : Res}
+    (h : poll g S = (g', S1, some r))
+    (h2 : poll (thenTBuilt tag a b r S1).1 (thenTBuilt tag a b r S1).2 = (t', S3, none)) :
+    poll (.thenT tag a b g none) S = (.thenT tag a b g' (some t'), S3, none) := by
+  have hw := thenT_built_weight tag a b g r (S1.push (.note ("then:" ++ tag ++ ":" ++ showRes r)))
+  unfold thenTBuilt at h2
+  simp [poll, h, h2, hw]
+
+theorem poll_thenT_cont_some {tag : String} {a b g t t' : Fut} {S S1 : Store} {r : Res}
+    (h : poll t S = (t', S1, some r)) : poll (.thenT tag a b g (some t)) S = (.ready r, S1, some r) := by
+  simp [poll, h]
+
+theorem poll_thenT_cont_none {tag : String} {a b g t t' : Fut} {S S1 : Store}
+    (h : poll t S = (t', S1, none)) :
+    poll (.thenT tag a b g (some t)) S = (.thenT tag a b g (some t'), S1, none) := by
+  simp [poll, h]
+
+theorem poll_join_failed {fs fs' : List Fut} {S S1 : Store} {e : Err} (h : pollAll fs S = (fs', S1, .failed e)) :
+    poll (.join fs) S = (.ready (.err e), S1, some (.err e)) := by simp [poll, h]
+
+theorem poll_join_done {fs fs' : List Fut} {S S1 : Store} {vs : List Val} (h : pollAll fs S = (fs', S1, .done vs)) :
+    poll (.join fs) S = (.ready (.ok (.list vs)), S1, some (.ok (.list vs))) := by simp [poll, h]
+
+theorem poll_join_pending {fs fs' : List Fut} {S S1 : Store} (h : pollAll fs S = (fs', S1, .pending)) :
+    poll (.join fs) S = (.join fs', S1, none) := by simp [poll, h]
+
+theorem poll_after_failed {fs fs' : List Fut} {S S1 : Store} {e : Err} (h : pollAll fs S = (fs', S1, .failed e)) :
+    poll (.after fs) S = (.ready (.err e), S1, some (.err e)) := by simp [poll, h]
+
+theorem poll_after_done {fs fs' : List Fut} {S S1 : Store} {vs : List Val} (h : pollAll fs S = (fs', S1, .done vs)) :
+    poll (.after fs) S = (.ready (.ok .unit), S1, some (.ok .unit)) := by simp [poll, h]
+
+theorem poll_after_pending {fs fs' : List Fut} {S S1 : Store} (h : pollAll fs S = (fs', S1, .pending)) :
+    poll (.after fs) S = (.after fs', S1, none) := by simp [poll, h]
+
+theorem pollAll_nil (S : Store) : pollAll [] S = ([], S, .done []) := by simp [pollAll]
+
+/-- A child resolved to an error: the pass ends there; the remaining children are not polled. -/
+theorem pollAll_cons_err {f f' : Fut} {rest : List Fut} {S S1 : Store} {e : Err}
+    (h : poll f S = (f', S1, some (.err e))) : pollAll (f :: rest) S = (f' :: rest, S1, .failed e) := by
+  simp [pollAll, h]
+
+theorem pollAll_cons_ok {f f' : Fut} {rest rest' : List Fut} {S S1 S2 : Store} {v : Val} {p : Pass}
+    (h : poll f S = (f', S1, some (.ok v))) (h2 : pollAll rest S1 = (rest', S2, p)) :
+    pollAll (f :: rest) S = (f' :: rest', S2,
+      match p with | .failed e => .failed e | .done vs => .done (v :: vs) | .pending => .pending) := by
+  cases p <;> simp [pollAll, h, h2]
+
+theorem pollAll_cons_none {f f' : Fut} {rest rest' : List Fut} {S S1 S2 : Store} {p : Pass}
+    (h : poll f S = (f', S1, none)) (h2 : pollAll rest S1 = (rest', S2, p)) :
+    pollAll (f :: rest) S = (f' :: rest', S2, match p with | .failed e => .failed e | _ => .pending) := by
+  cases p <;> simp [pollAll, h, h2]
+
+/--
+Induction over the run of `poll`: one case per combinator; the hypotheses about sub-polls are
+plain facts (`P1 g S` for the child polled first; for what is polled afterwards a statement
+quantified over the outcome of the first poll).
+-/
+theorem poll_induct' {P1 : Fut → Store → Prop} {P2 : List Fut → Store → Prop}
+    (ready : ∀ r S, P1 (.ready r) S)
+    (promise : ∀ id res S, P1 (.promise id res) S)
+    (map : ∀ fn g S, P1 g S → P1 (.map fn g) S)
+    (mapOk : ∀ fn g S, P1 g S → P1 (.mapOk fn g) S)
+    (mapOkToAny : ∀ g S, P1 g S → P1 (.mapOkToAny g) S)
+    (mapOkValue : ∀ v g S, P1 g S → P1 (.mapOkValue v g) S)
+    (thenK_none : ∀ nn c path g S, P1 g S →
+      (∀ g' S1 r, poll g S = (g', S1, some r) → P1 (applyK nn c path r S1).1 (applyK nn c path r S1).2) →
+      P1 (.thenK nn c path g none) S)
+    (thenK_some : ∀ nn c path g t S, P1 t S → P1 (.thenK nn c path g (some t)) S)
+    (thenT_none : ∀ tag a b g S, P1 g S →
+      (∀ g' S1 r, poll g S = (g', S1, some r) → P1 (thenTBuilt tag a b r S1).1 (thenTBuilt tag a b r S1).2) →
+      P1 (.thenT tag a b g none) S)
+    (thenT_some : ∀ tag a b g t S, P1 t S → P1 (.thenT tag a b g (some t)) S)
+    (join : ∀ fs S, P2 fs S → P1 (.join fs) S)
+    (after : ∀ fs S, P2 fs S → P1 (.after fs) S)
+    (nil : ∀ S, P2 [] S)
+    (cons : ∀ f rest S, P1 f S →
+      (∀ f' S1 o, poll f S = (f', S1, o) → (∀ e, o ≠ some (.err e)) → P2 rest S1) → P2 (f :: rest) S) :
+    (∀ f S, P1 f S) ∧ (∀ fs S, P2 fs S) := by
+  apply poll.mutual_induct (motive1 := P1) (motive2 := P2)
+  case case1 => exact fun S r => ready r S
+  case case2 => exact fun S id res _ => promise id res S
+  case case3 => exact fun S id res _ => promise id res S
+  case case4 => exact fun S fn g _ _ _ _ _ _ _ ih => map fn g S ih
+  case case5 => exact fun S fn g _ _ _ ih => map fn g S ih
+  case case6 => exact fun S fn g _ _ _ _ _ _ _ ih => mapOk fn g S ih
+  case case7 => exact fun S fn g _ _ _ _ ih => mapOk fn g S ih
+  case case8 => exact fun S fn g _ _ _ ih => mapOk fn g S ih
+  case case9 => exact fun S g _ _ _ _ ih => mapOkToAny g S ih
+  case case10 => exact fun S g _ _ _ ih => mapOkToAny g S ih
+  case case11 => exact fun S v g _ _ _ _ ih => mapOkValue v g S ih
+  case case12 => exact fun S v g _ _ _ _ ih => mapOkValue v g S ih
+  case case13 => exact fun S v g _ _ _ ih => mapOkValue v g S ih
+  case case14 =>
+    intro S nn c path g fst S1 r x built _ _ _ _ _ ih1 ih2
+    refine thenK_none nn c path g S ih1 ?_
+    intro g' S1' r' hp; rw [x] at hp; cases hp; exact ih2
+  case case15 =>
+    intro S nn c path g fst S1 r x built _ _ _ _ ih1 ih2
+    refine thenK_none nn c path g S ih1 ?_
+    intro g' S1' r' hp; rw [x] at hp; cases hp; exact ih2
+  case case16 =>
+    intro S nn c path g fst S1 r x built h _
+    exact absurd (applyK_weight nn c path r S1 g) h
+  case case17 =>
+    intro S nn c path g g' S1 x ih
+    refine thenK_none nn c path g S ih ?_
+    intro g'' S1' r' hp; rw [x] at hp; cases hp
+  case case18 => exact fun S nn c path g t _ _ _ _ ih => thenK_some nn c path g t S ih
+  case case19 => exact fun S nn c path g t _ _ _ ih => thenK_some nn c path g t S ih
+  case case20 =>
+    intro S tag a b g fst S1 r x S2 built _ _ _ _ _ ih1 ih2
+    refine thenT_none tag a b g S ih1 ?_
+    intro g' S1' r' hp; rw [x] at hp; cases hp
+    simpa [thenTBuilt, built, S2] using ih2
+  case case21 =>
+    intro S tag a b g fst S1 r x S2 built _ _ _ _ ih1 ih2
+    refine thenT_none tag a b g S ih1 ?_
+    intro g' S1' r' hp; rw [x] at hp; cases hp
+    simpa [thenTBuilt, built, S2] using ih2
+  case case22 =>
+    intro S tag a b g fst S1 r x S2 built h _
+    have := thenT_built_weight tag a b g r S2
+    simp only [built, dite_eq_ite] at h
+    exact absurd this h
+  case case23 =>
+    intro S tag a b g g' S1 x ih
+    refine thenT_none tag a b g S ih ?_
+    intro g'' S1' r' hp; rw [x] at hp; cases hp
+  case case24 => exact fun S tag a b g t _ _ _ _ ih => thenT_some tag a b g t S ih
+  case case25 => exact fun S tag a b g t _ _ _ ih => thenT_some tag a b g t S ih
+  case case26 => exact fun S fs _ _ _ _ ih => join fs S ih
+  case case27 => exact fun S fs _ _ _ _ ih => join fs S ih
+  case case28 => exact fun S fs _ _ _ ih => join fs S ih
+  case case29 => exact fun S fs _ _ _ _ ih => after fs S ih
+  case case30 => exact fun S fs _ _ _ _ ih => after fs S ih
+  case case31 => exact fun S fs _ _ _ ih => after fs S ih
+  case case32 => exact fun S => nil S
+  case case33 =>
+    intro S t rest f' S1 e x ih
+    refine cons t rest S ih ?_
+    intro f'' S1' o hp hne; rw [x] at hp; cases hp; exact absurd rfl (hne e)
+  case case34 =>
+    intro S t rest f' S1 v x _ _ _ _ ih1 ih2
+    refine cons t rest S ih1 ?_
+    intro f'' S1' o hp _; rw [x] at hp; cases hp; exact ih2
+  case case35 =>
+    intro S t rest f' S1 v x _ _ _ _ ih1 ih2
+    refine cons t rest S ih1 ?_
+    intro f'' S1' o hp _; rw [x] at hp; cases hp; exact ih2
+  case case36 =>
+    intro S t rest f' S1 v x _ _ _ ih1 ih2
+    refine cons t rest S ih1 ?_
+    intro f'' S1' o hp _; rw [x] at hp; cases hp; exact ih2
+  case case37 =>
+    intro S t rest f' S1 x _ _ _ _ ih1 ih2
+    refine cons t rest S ih1 ?_
+    intro f'' S1' o hp _; rw [x] at hp; cases hp; exact ih2
+  case case38 =>
+    intro S t rest f' S1 x _ _ _ _ _ ih1 ih2
+    refine cons t rest S ih1 ?_
+    intro f'' S1' o hp _; rw [x] at hp; cases hp; exact ih2
+
+/-! ## §4 what building and polling may do to the store
+
+`Mono S S'`: no idle round happened; the log and the outstanding list only grew at the end; every
+new outstanding promise was counted in `nextId`. -/
+
+structure Mono (S S' : Store) : Prop where
+  rounds : S'.rounds = S.rounds
+  ids : S.nextId + S'.outstanding.length ≤ S'.nextId + S.outstanding.length
+  next : S.nextId ≤ S'.nextId
+  log : ∃ l, S'.log = S.log ++ l
+  out : ∃ l, S'.outstanding = S.outstanding ++ l
+  crash : S'.crash = S.crash
+
+theorem Mono.refl (S : Store) : Mono S S := ⟨rfl, Nat.le_refl _, Nat.le_refl _, ⟨[], by simp⟩, ⟨[], by simp⟩, rfl⟩
+
+theorem Mono.trans {A B C : Store} (h1 : Mono A B) (h2 : Mono B C) : Mono A C := by
+  obtain ⟨l1, hl1⟩ := h1.log; obtain ⟨l2, hl2⟩ := h2.log
+  obtain ⟨o1, ho1⟩ := h1.out; obtain ⟨o2, ho2⟩ := h2.out
+  refine ⟨by rw [h2.rounds, h1.rounds], ?_, Nat.le_trans h1.next h2.next, ⟨l1 ++ l2, by rw [hl2, hl1]; simp⟩,
+    ⟨o1 ++ o2, by rw [ho2, ho1]; simp⟩, by rw [h2.crash, h1.crash]⟩
+  have := h1.ids; have := h2.ids; omega
+
+theorem Mono.push (S : Store) (e : Entry) : Mono S (S.push e) :=
+  ⟨rfl, Nat.le_refl _, Nat.le_refl _, ⟨[e], rfl⟩, ⟨[], by simp [Store.push]⟩, rfl⟩
+
+theorem applyMap_mono (fn : MapFn) (r : Res) (S : Store) : Mono S (applyMap fn r S).2 := by
+  cases fn <;> cases r <;> simp only [applyMap] <;> (try split) <;>
+    first | exact Mono.refl _ | exact Mono.push _ _
+
+theorem applyOk_mono (fn : OkFn) (v : Val) (S : Store) : Mono S (applyOk fn v S).2 := by
+  cases fn; exact Mono.push _ _
+
+theorem mkMap_mono (fn : MapFn) (f : Fut) (S : Store) : Mono S (mkMap fn f S).2 := by
+  cases f <;> simp only [mkMap] <;> first | exact applyMap_mono _ _ _ | exact Mono.refl _
+
+theorem mkMapOk_mono (fn : OkFn) (f : Fut) (S : Store) : Mono S (mkMapOk fn f S).2 := by
+  cases f with
+  | ready r => cases r <;> simp only [mkMapOk] <;> first | exact applyOk_mono _ _ _ | exact Mono.refl _
+  | _ => exact Mono.refl _
+
+theorem nonNullWrap_mono (nn : Bool) (path : Path) (f : Fut) (S : Store) : Mono S (nonNullWrap nn path f S).2 := by
+  unfold nonNullWrap; cases nn <;> simp <;> first | exact Mono.refl _ | exact mkMap_mono _ _ _
+
+theorem catchIfNullable_mono (nn : Bool) (f : Fut) (S : Store) : Mono S (catchIfNullable nn f S).2 := by
+  unfold catchIfNullable; cases nn <;> simp <;> first | exact Mono.refl _ | exact mkMap_mono _ _ _
+
+theorem execField_mono (nn : Bool) (mode : Mode) (rerr : Option String) (c : Comp) (itemPath : Path)
+    (completed : Store → Fut × Store) (S : Store) (hc : ∀ S', Mono S' (completed S').2) :
+    Mono S (execField nn mode rerr c itemPath completed S).2 := by
+  unfold execField
+  cases mode <;> cases rerr <;> simp only
+  all_goals first
+    | exact Mono.push _ _
+    | exact (Mono.push _ _).trans (hc _)
+    | (refine ⟨rfl, ?_, ?_, ⟨[.start itemPath], rfl⟩, ⟨[itemPath], rfl⟩, rfl⟩ <;> simp [Store.push] <;> omega)
+    | (refine ⟨rfl, ?_, ?_, ⟨[.start itemPath, .fulfil itemPath], by simp [Store.push]⟩, ⟨[], by simp [Store.push]⟩, rfl⟩ <;>
+        simp [Store.push])
+
+theorem complete_mono_aux :
+    (∀ nn c path S, Mono S (complete nn c path S).2) ∧
+    (∀ fields path n i acc S, Mono S (execFields fields path n i acc S).2) ∧
+    (∀ inn items path i S, Mono S (completeItems inn items path i S).2) := by
+  apply complete.mutual_induct
+    (motive_1 := fun nn c path S => Mono S (complete nn c path S).2)
+    (motive_2 := fun fields path n i acc S => Mono S (execFields fields path n i acc S).2)
+    (motive_3 := fun inn items path i S => Mono S (completeItems inn items path i S).2)
+  · intro nn path S; simp only [complete]; exact nonNullWrap_mono _ _ _ _
+  · intro nn path S a; simp only [complete]; exact nonNullWrap_mono _ _ _ _
+  · intro nn path S a; simp only [complete]; exact nonNullWrap_mono _ _ _ _
+  · intro nn path S inn items fs S1 h ih
+    rw [h] at ih; simp only [complete, h]
+    exact ih.trans (nonNullWrap_mono _ _ _ _)
+  · intro nn path S fields f S1 h ih
+    rw [h] at ih; simp only [complete, h]
+    exact ih.trans (nonNullWrap_mono _ _ _ _)
+  · intro inn path i S; simp only [completeItems]; exact Mono.refl _
+  · intro inn path i S c rest f S1 h1 f1 S11 h2 fs S2 h3 ih1 ih2
+    rw [h1] at ih1; rw [h3] at ih2
+    have hc := catchIfNullable_mono inn f S1
+    rw [h2] at hc
+    simp only [completeItems, h1, h2, h3]
+    exact (ih1.trans hc).trans ih2
+  · intro path n i acc S; simp only [execFields]; exact Mono.refl _
+  · intro path n i acc S key nn rerr c rest ih
+    rw [execFields_tname]; exact (Mono.push _ _).trans ih
+  · intro path n i acc S key nn mode rerr c rest itemPath f S1 h1 S11 e hm h2 ihc
+    have hm' : mode ≠ .tname := fun h => hm h
+    have hf := execField_mono nn mode rerr c itemPath (fun S' => complete nn c itemPath S') S ihc
+    rw [h1] at hf
+    have hc := catchIfNullable_mono nn f S1
+    rw [h2] at hc
+    rw [execFields_cons path key nn mode rerr c rest n i acc S S1 S11 f _ hm' h1 h2]
+    simp only [fieldCont]; exact hf.trans hc
+  · intro path n i acc S key nn mode rerr c rest itemPath f S1 h1 S11 v hm h2 ihc ih
+    have hm' : mode ≠ .tname := fun h => hm h
+    have hf := execField_mono nn mode rerr c itemPath (fun S' => complete nn c itemPath S') S ihc
+    rw [h1] at hf
+    have hc := catchIfNullable_mono nn f S1
+    rw [h2] at hc
+    rw [execFields_cons path key nn mode rerr c rest n i acc S S1 S11 f _ hm' h1 h2]
+    simp only [fieldCont]; exact ((hf.trans hc).trans (Mono.push _ _)).trans ih
+  · intro path n i acc S key nn mode rerr c rest itemPath f S1 h1 S11 f1 hne hno hm h2 ihc ih
+    have hm' : mode ≠ .tname := fun h => hm h
+    have hf := execField_mono nn mode rerr c itemPath (fun S' => complete nn c itemPath S') S ihc
+    rw [h1] at hf
+    have hc := catchIfNullable_mono nn f S1
+    rw [h2] at hc
+    rw [execFields_cons path key nn mode rerr c rest n i acc S S1 S11 f f1 hm' h1 h2]
+    have hshape : fieldCont rest path n i acc key f1 S11 =
+        execFields rest path n (i + 1) (acc ++ [Fut.mapOk (OkFn.setSlot path i key) f1]) S11 := by
+      unfold fieldCont
+      split
+      · exact absurd rfl (hne _)
+      · exact absurd rfl (hno _)
+      · rfl
+    rw [hshape]; exact (hf.trans hc).trans ih
+
+theorem complete_mono (nn : Bool) (c : Comp) (path : Path) (S : Store) : Mono S (complete nn c path S).2 :=
+  complete_mono_aux.1 nn c path S
+
+theorem applyK_mono (nn : Bool) (c : Comp) (path : Path) (r : Res) (S : Store) : Mono S (applyK nn c path r S).2 := by
+  cases r <;> simp only [applyK] <;> first | exact complete_mono _ _ _ _ | exact Mono.refl _
+
+theorem construct_mono_aux :
+    (∀ t S, Mono S (construct t S).2) ∧ (∀ ts S, Mono S (constructAll ts S).2) := by
+  apply construct.mutual_induct
+    (motive_1 := fun t S => Mono S (construct t S).2)
+    (motive_2 := fun ts S => Mono S (constructAll ts S).2)
+  case case9 =>
+    intro S tag a b t S1 r S2 h x ih2 ih1
+    rw [x] at ih2
+    simp only [construct, x, h, if_true]
+    exact (ih2.trans (Mono.push _ _)).trans ih1
+  case case10 =>
+    intro S tag a b t S1 r S2 h x ih2 ih1
+    rw [x] at ih2
+    simp only [construct, x, h, Bool.false_eq_true, if_false]
+    exact (ih2.trans (Mono.push _ _)).trans ih1
+  case case11 =>
+    intro S tag a b t f S1 x hnr ih
+    rw [x] at ih
+    have hc : (construct (Fut.thenT tag a b t none) S) = (Fut.thenT tag a b f none, S1) := by
+      simp only [construct, x]
+    rw [hc]; exact ih
+  all_goals intros
+  all_goals simp_all only [construct, constructAll]
+  all_goals first
+    | exact Mono.refl _
+    | exact Mono.trans ‹_› (mkMap_mono _ _ _)
+    | exact Mono.trans ‹_› (mkMapOk_mono _ _ _)
+    | assumption
+    | exact Mono.trans ‹Mono _ _› ‹Mono _ _›
+    | skip
+
+theorem construct_mono (t : Fut) (S : Store) : Mono S (construct t S).2 := construct_mono_aux.1 t S
+
+theorem Mono.of_eq_fields {S S' : Store} (h1 : S'.rounds = S.rounds) (h2 : S'.nextId = S.nextId)
+    (h3 : S'.log = S.log) (h4 : S'.outstanding = S.outstanding) (h5 : S'.crash = S.crash) : Mono S S' :=
+  ⟨h1, by rw [h2, h4]; exact Nat.le_refl _, by rw [h2]; exact Nat.le_refl _, ⟨[], by simp [h3]⟩, ⟨[], by simp [h4]⟩, h5⟩
+
+theorem thenT_built_mono (r : Res) (a b : Fut) (S : Store) :
+    Mono S (if r.isOk = true then construct a S else construct b S).2 := by
+  split <;> exact construct_mono _ _
+
+theorem applyMap_mono' {fn : MapFn} {r r' : Res} {S S' : Store} (h : applyMap fn r S = (r', S')) : Mono S S' := by
+  have := applyMap_mono fn r S; rw [h] at this; exact this
+
+theorem applyOk_mono' {fn : OkFn} {v v' : Val} {S S' : Store} (h : applyOk fn v S = (v', S')) : Mono S S' := by
+  have := applyOk_mono fn v S; rw [h] at this; exact this
+
+theorem poll_mono_aux :
+    (∀ f S, Mono S (poll f S).2.1) ∧ (∀ fs S, Mono S (pollAll fs S).2.1) := by
+  apply poll.mutual_induct
+    (motive1 := fun f S => Mono S (poll f S).2.1)
+    (motive2 := fun fs S => Mono S (pollAll fs S).2.1)
+  all_goals intros
+  all_goals simp_all +zetaDelta only [poll, pollAll, if_true, if_false, dite_eq_ite]
+  all_goals first
+    | exact Mono.refl _
+    | exact Mono.of_eq_fields rfl rfl rfl rfl rfl
+    | assumption
+    | exact Mono.trans ‹Mono _ _› (applyMap_mono' ‹_›)
+    | exact Mono.trans ‹Mono _ _› (applyOk_mono' ‹_›)
+    | exact (Mono.trans ‹Mono _ _› (applyK_mono _ _ _ _ _)).trans ‹Mono (applyK _ _ _ _ _).2 _›
+    | exact absurd (applyK_weight _ _ _ _ _ _) ‹_›
+    | exact absurd (thenT_built_weight _ _ _ _ _ _) ‹_›
+    | exact ((Mono.trans ‹Mono _ _› (Mono.push _ _)).trans (thenT_built_mono _ _ _ _)).trans (by assumption)
+    | (apply Mono.trans <;> assumption)
+
+theorem poll_mono (f : Fut) (S : Store) : Mono S (poll f S).2.1 := poll_mono_aux.1 f S
+
+/-! ## §5 the idle handler -/
+
+theorem maskPicks_length (m j n : Nat) : (maskPicks m j n).length = n := by
+  induction n generalizing j with
+  | zero => simp [maskPicks]
+  | succ n ih => simp [maskPicks, ih]
+
+theorem picks_length (mask : Option Nat) (n : Nat) : (picks mask n).length = n := by
+  unfold picks
+  cases mask with
+  | none => simp
+  | some m =>
+    simp only
+    split
+    · exact maskPicks_length m 0 n
+    · cases n <;> simp
+
+theorem picks_any (mask : Option Nat) (n : Nat) (hn : 0 < n) : (picks mask n).any id = true := by
+  unfold picks
+  cases mask with
+  | none => cases n with
+    | zero => omega
+    | succ k => simp [List.replicate_succ]
+  | some m =>
+    simp only
+    split
+    · assumption
+    · cases n with
+      | zero => omega
+      | succ k => simp
+
+/-- The promises an idle round leaves outstanding. -/
+def kept : List Path → List Bool → List Path
+  | [], _ => []
+  | p :: ps, [] => p :: kept ps []
+  | p :: ps, b :: bs => if b then kept ps bs else p :: kept ps bs
+
+def fulfilled : List Path → List Bool → List Path
+  | [], _ => []
+  | _ :: _, [] => []
+  | p :: ps, b :: bs => if b then p :: fulfilled ps bs else fulfilled ps bs
+
+theorem deliver_spec (ps : List Path) (bs : List Bool) (S : Store) :
+    (deliver ps bs S).outstanding = S.outstanding ++ kept ps bs ∧
+    (deliver ps bs S).chan = S.chan ++ fulfilled ps bs ∧
+    (deliver ps bs S).log = S.log ++ (fulfilled ps bs).map Entry.fulfil ∧
+    (deliver ps bs S).rounds = S.rounds ∧ (deliver ps bs S).nextId = S.nextId ∧
+    (deliver ps bs S).crash = S.crash := by
+  induction ps generalizing bs S with
+  | nil => simp [deliver, kept, fulfilled]
+  | cons p ps ih =>
+    cases bs with
+    | nil =>
+      have := ih [] { S with outstanding := S.outstanding ++ [p] }
+      simp only [deliver, kept, fulfilled]
+      simp_all [fulfilled]
+      cases ps <;> simp [fulfilled]
+    | cons b bs =>
+      cases b
+      · have := ih bs { S with outstanding := S.outstanding ++ [p] }
+        simp_all [deliver, kept, fulfilled]
+      · have := ih bs { (S.push (.fulfil p)) with chan := S.chan ++ [p] }
+        simp_all [deliver, kept, fulfilled, Store.push]
+
+theorem kept_length_le (ps : List Path) (bs : List Bool) : (kept ps bs).length ≤ ps.length := by
+  induction ps generalizing bs with
+  | nil => simp [kept]
+  | cons p ps ih =>
+    cases bs with
+    | nil => simp [kept]; exact ih []
+    | cons b bs => cases b <;> simp [kept] <;> have := ih bs <;> omega
+
+theorem kept_length_lt (ps : List Path) (bs : List Bool) (hl : bs.length = ps.length) (ha : bs.any id = true) :
+    (kept ps bs).length < ps.length := by
+  induction ps generalizing bs with
+  | nil => cases bs <;> simp_all
+  | cons p ps ih =>
+    cases bs with
+    | nil => simp at hl
+    | cons b bs =>
+      cases b
+      · simp [kept]; apply ih bs (by simpa using hl); simpa using ha
+      · simp [kept]; have := kept_length_le ps bs; omega
+
+/-- What one call of the idle handler does when something is outstanding: one more round, at
+    least one promise fewer outstanding, nothing else touched but channels and `fulfil` events. -/
+theorem idleRound_spec (mask : Option Nat) (S : Store) (hne : S.outstanding ≠ []) :
+    (idleRound mask S).rounds = S.rounds + 1 ∧ (idleRound mask S).nextId = S.nextId ∧
+    (idleRound mask S).outstanding.length < S.outstanding.length ∧
+    (idleRound mask S).crash = S.crash ∧
+    (idleRound mask S).log = S.log ++ (fulfilled S.outstanding (picks mask S.outstanding.length)).map Entry.fulfil ∧
+    (idleRound mask S).outstanding = kept S.outstanding (picks mask S.outstanding.length) := by
+  have hpos : 0 < S.outstanding.length := by
+    cases h : S.outstanding with
+    | nil => exact absurd h hne
+    | cons a l => simp
+  have hs := deliver_spec S.outstanding (picks mask S.outstanding.length)
+    { S with outstanding := [], rounds := S.rounds + 1 }
+  have hk := kept_length_lt S.outstanding (picks mask S.outstanding.length) (picks_length _ _) (picks_any _ _ hpos)
+  unfold idleRound
+  simp only at hs ⊢
+  obtain ⟨h1, h2, h3, h4, h5, h6⟩ := hs
+  refine ⟨h4, h5, ?_, h6, h3, ?_⟩
+  · rw [h1]; simpa using hk
+  · rw [h1]; simp
+
+/-! ## §6 wait -/
+
+/-- Every idle round so far fulfilled at least one promise: rounds + still outstanding ≤ created. -/
+def Inv (S : Store) : Prop := S.rounds + S.outstanding.length ≤ S.nextId
+
+theorem Mono.inv {S S' : Store} (h : Mono S S') (hi : Inv S) : Inv S' := by
+  unfold Inv at *; have := h.ids; have := h.rounds; omega
+
+theorem idleRound_inv (mask : Option Nat) (S : Store) (hne : S.outstanding ≠ []) (hi : Inv S) :
+    Inv (idleRound mask S) := by
+  obtain ⟨h1, h2, h3, _⟩ := idleRound_spec mask S hne
+  unfold Inv at *; omega
+
+theorem isEmpty_false_ne {α : Type} (l : List α) (h : ¬ l.isEmpty = true) : l ≠ [] := by
+  cases l <;> simp_all
+
+theorem waitLoop_some (fuel : Nat) (f f' : Fut) (sched : List Nat) (S S1 : Store) (r : Res)
+    (hp : poll f S = (f', S1, some r)) : waitLoop fuel f sched S = (.done r, sched, S1) := by
+  cases fuel <;> simp [waitLoop, hp]
+
+theorem waitLoop_succ_none (fuel : Nat) (f f' : Fut) (sched : List Nat) (S S1 : Store)
+    (hp : poll f S = (f', S1, none)) (hne : S1.outstanding ≠ []) :
+    waitLoop (fuel + 1) f sched S = waitLoop fuel f' sched.tail (idleRound sched.head? S1) := by
+  have he : S1.outstanding.isEmpty = false := by cases h : S1.outstanding <;> simp_all
+  cases sched <;> simp [waitLoop, hp, he]
+
+theorem waitLoop_succ_stuck (fuel : Nat) (f f' : Fut) (sched : List Nat) (S S1 : Store)
+    (hp : poll f S = (f', S1, none)) (he : S1.outstanding = []) :
+    (waitLoop (fuel + 1) f sched S).1 = .stuck := by
+  simp [waitLoop, hp, he]
+
+theorem waitLoop_zero_none (f f' : Fut) (sched : List Nat) (S S1 : Store)
+    (hp : poll f S = (f', S1, none)) : (waitLoop 0 f sched S).1 = .outOfFuel := by
+  simp [waitLoop, hp]
+
+/-- `wait` (when it returns): the result has the future's static outcome; the store invariant
+    holds; no crash flag was raised; `nextId` only grew. -/
+theorem waitLoop_spec (fuel : Nat) : ∀ (f : Fut) (sched : List Nat) (S : Store), Inv S →
+    ∀ r, (waitLoop fuel f sched S).1 = .done r →
+      r.out = f.out ∧ Inv (waitLoop fuel f sched S).2.2 ∧ (waitLoop fuel f sched S).2.2.crash = S.crash ∧
+      S.nextId ≤ (waitLoop fuel f sched S).2.2.nextId := by
+  induction fuel with
+  | zero =>
+    intro f sched S hi r h
+    have hm := poll_mono f S
+    have ho := poll_result_out f S
+    rcases hp : poll f S with ⟨f', S1, o⟩
+    rw [hp] at hm ho
+    cases o with
+    | none => rw [waitLoop_zero_none f f' sched S S1 hp] at h; cases h
+    | some r' =>
+      rw [waitLoop_some 0 f f' sched S S1 r' hp] at h ⊢
+      cases h
+      exact ⟨ho r rfl, hm.inv hi, hm.crash, hm.next⟩
+  | succ fuel ih =>
+    intro f sched S hi r h
+    have hm := poll_mono f S
+    have ho := poll_result_out f S
+    have hf := poll_out f S
+    rcases hp : poll f S with ⟨f', S1, o⟩
+    rw [hp] at hm ho hf
+    cases o with
+    | some r' =>
+      rw [waitLoop_some (fuel + 1) f f' sched S S1 r' hp] at h ⊢
+      cases h
+      exact ⟨ho r rfl, hm.inv hi, hm.crash, hm.next⟩
+    | none =>
+      simp only at hm hf
+      by_cases he : S1.outstanding = []
+      · rw [waitLoop_succ_stuck fuel f f' sched S S1 hp he] at h; cases h
+      · rw [waitLoop_succ_none fuel f f' sched S S1 hp he] at h ⊢
+        have hsp := idleRound_spec sched.head? S1 he
+        obtain ⟨h1, h2, h3, h4⟩ := ih f' sched.tail (idleRound sched.head? S1)
+          (idleRound_inv sched.head? S1 he (hm.inv hi)) r h
+        refine ⟨by rw [h1, hf], h2, by rw [h3, hsp.2.2.2.1, hm.crash], ?_⟩
+        have := hsp.2.1; have := hm.next; omega
+
+/-! ## §7 whole requests -/
+
+/-- Outcome of a serially executed root selection set. -/
+def serialOut (fields : List Field) (n : Nat) : Out :=
+  if Spec.fieldsOk fields [] then .ok (.obj [] n) else .fail
+
+/-- What `execSerial` does with the outcome of waiting for the current root field. -/
+def serialCont (fuel : Nat) (rest : List Field) (n i : Nat) (key : String) (w : WaitResult × List Nat × Store) :
+    WaitResult × List Nat × Store :=
+  match w with
+  | (.done (.err e), sched', S3) => (.done (.err e), sched', S3)
+  | (.done (.ok v), sched', S3) => execSerial fuel rest n (i + 1) sched' (S3.push (.write [] i key v))
+  | (w, sched', S3) => (w, sched', S3)
+
+theorem execSerial_cons (fuel : Nat) (key : String) (nn : Bool) (mode : Mode) (rerr : Option String) (c : Comp)
+    (rest : List Field) (n i : Nat) (sched : List Nat) (S S1 S2 : Store) (f0 f : Fut) (hm : mode ≠ .tname)
+    (h1 : execField nn mode rerr c [.key key] (complete nn c [.key key]) S = (f0, S1))
+    (h2 : catchIfNullable nn f0 S1 = (f, S2)) :
+    execSerial fuel (.mk key nn mode rerr c :: rest) n i sched S =
+      serialCont fuel rest n i key (waitLoop fuel f sched S2) := by
+  cases mode
+  all_goals first
+    | exact absurd rfl hm
+    | (simp only [execSerial, h1, h2, serialCont]
+       rcases waitLoop fuel f sched S2 with ⟨w, s', S3⟩
+       cases w with
+       | done r => cases r <;> rfl
+       | _ => rfl)
+
+theorem execSerial_spec (fuel : Nat) : ∀ (fields : List Field) (n i : Nat) (sched : List Nat) (S : Store), Inv S →
+    ∀ r, (execSerial fuel fields n i sched S).1 = .done r →
+      r.out = serialOut fields n ∧ Inv (execSerial fuel fields n i sched S).2.2 ∧
+      (execSerial fuel fields n i sched S).2.2.crash = S.crash := by
+  intro fields
+  induction fields with
+  | nil =>
+    intro n i sched S hi r h
+    simp only [execSerial] at h ⊢
+    cases h
+    exact ⟨by simp [serialOut, Spec.fieldsOk, Res.out], hi, trivial⟩
+  | cons fld rest ih =>
+    intro n i sched S hi r h
+    cases fld with
+    | mk key nn mode rerr c =>
+      by_cases hm : mode = .tname
+      · subst hm
+        simp only [execSerial] at h ⊢
+        obtain ⟨h1, h2, h3⟩ := ih n (i + 1) sched _ ((Mono.push S _).inv hi) r h
+        refine ⟨?_, h2, by rw [h3, (Mono.push S _).crash]⟩
+        rw [h1]; simp [serialOut, fieldsOk_cons, Spec.field, Out.isOk]
+      · rcases h1 : execField nn mode rerr c [.key key] (complete nn c [.key key]) S with ⟨f0, S1⟩
+        rcases h2 : catchIfNullable nn f0 S1 with ⟨f, S2⟩
+        have hout : f.out = Spec.field [] (.mk key nn mode rerr c) :=
+          fieldStep_out [] key nn mode rerr c S S1 S2 f0 f hm (fun S' => complete_out _ _ _ _) h1 h2
+        have hmono : Mono S S2 := by
+          have a := execField_mono nn mode rerr c [.key key] (complete nn c [.key key]) S (fun S' => complete_mono _ _ _ _)
+          have b := catchIfNullable_mono nn f0 S1
+          rw [h1] at a; rw [h2] at b; exact a.trans b
+        rw [execSerial_cons fuel key nn mode rerr c rest n i sched S S1 S2 f0 f hm h1 h2] at h ⊢
+        have hw := waitLoop_spec fuel f sched S2 (hmono.inv hi)
+        rcases hwl : waitLoop fuel f sched S2 with ⟨w, sched', S3⟩
+        rw [hwl] at h hw
+        simp only [serialCont] at h ⊢
+        cases w with
+        | done r' =>
+          cases r' with
+          | err e =>
+            simp only at h ⊢
+            cases h
+            obtain ⟨a, b, c', _⟩ := hw _ rfl
+            refine ⟨?_, b, by rw [c', hmono.crash]⟩
+            simp only [Res.out, hout] at a
+            simp [serialOut, fieldsOk_cons, ← a, Out.isOk, Res.out]
+          | ok v =>
+            simp only at h ⊢
+            obtain ⟨a, b, c', _⟩ := hw _ rfl
+            obtain ⟨h1', h2', h3'⟩ := ih n (i + 1) sched' _ ((Mono.push S3 _).inv b) r h
+            refine ⟨?_, h2', by rw [h3', (Mono.push S3 _).crash, c', hmono.crash]⟩
+            simp only [Res.out, hout] at a
+            rw [h1']; simp [serialOut, fieldsOk_cons, ← a, Out.isOk]
+        | stuck => simp at h
+        | outOfFuel => simp at h
+
+/-- The outcome the reference semantics assigns to a request: the root object, or failure (data
+    is null). It does not mention modes or the schedule. -/
+def Spec.request (rq : Request) : Out :=
+  if Spec.fieldsOk rq.fields [] then .ok (.obj [] rq.fields.length) else .fail
+
+theorem Inv_init : Inv ({} : Store) := by simp [Inv]
+
+/-- Whenever `execute` returns, its result is the reference outcome, every idle round fulfilled a
+    promise, and no crash branch was taken. -/
+theorem execute_spec (rq : Request) (r : Res) (h : (execute rq).1 = .done r) :
+    r.out = Spec.request rq ∧ (execute rq).2.rounds ≤ (execute rq).2.nextId ∧ (execute rq).2.crash = false := by
+  unfold execute at h ⊢
+  by_cases hmut : rq.mutation = true
+  · simp only [hmut, if_true] at h ⊢
+    have hs := execSerial_spec (Field.invocationsL rq.fields + 1) rq.fields rq.fields.length 0 rq.sched {} Inv_init
+    rcases hx : execSerial (Field.invocationsL rq.fields + 1) rq.fields rq.fields.length 0 rq.sched {} with ⟨w, sched', S⟩
+    rw [hx] at h hs
+    cases w with
+    | done r' =>
+      obtain ⟨a, b, c⟩ := hs r' rfl
+      cases r' with
+      | err e =>
+        simp only at h ⊢; cases h
+        refine ⟨by simpa [serialOut, Spec.request] using a, ?_, by simpa [Store.push] using c⟩
+        simp only [Inv, Store.push] at b ⊢; omega
+      | ok v =>
+        simp only at h ⊢; cases h
+        refine ⟨by simpa [serialOut, Spec.request] using a, ?_, by simpa using c⟩
+        simp only [Inv] at b; omega
+    | stuck => simp at h
+    | outOfFuel => simp at h
+  · simp only [hmut] at h ⊢
+    simp only [Bool.false_eq_true, if_false] at h ⊢
+    rcases hb : execFields rq.fields [] rq.fields.length 0 [] {} with ⟨f, S1⟩
+    have hm : Mono {} S1 := by have := complete_mono_aux.2.1 rq.fields [] rq.fields.length 0 [] {}; rw [hb] at this; exact this
+    have ho : f.out = fieldsOut rq.fields [] rq.fields.length [] := by
+      have := complete_out_aux.2.1 rq.fields [] rq.fields.length 0 [] {}; rw [hb] at this; exact this
+    rw [hb] at h
+    simp only at h ⊢
+    have hw := waitLoop_spec (Field.invocationsL rq.fields + 1) f rq.sched S1 (hm.inv Inv_init)
+    rcases hwl : waitLoop (Field.invocationsL rq.fields + 1) f rq.sched S1 with ⟨w, sched', S⟩
+    rw [hwl] at h hw
+    cases w with
+    | done r' =>
+      obtain ⟨a, b, c, _⟩ := hw r' rfl
+      have hc0 : S1.crash = false := by rw [hm.crash]
+      cases r' with
+      | err e =>
+        simp only at h ⊢; cases h
+        refine ⟨by rw [a, ho]; simp [fieldsOut, Spec.request, Fut.outs], ?_, by simpa [Store.push, hc0] using c⟩
+        simp only [Inv, Store.push] at b ⊢; omega
+      | ok v =>
+        simp only at h ⊢; cases h
+        refine ⟨by rw [a, ho]; simp [fieldsOut, Spec.request, Fut.outs], ?_, by simpa [hc0] using c⟩
+        simp only [Inv] at b; omega
+    | stuck => simp at h
+    | outOfFuel => simp at h
+
+/-! ## §8 the reference semantics does not look at modes -/
+
+theorem allSyncL_length (fs : List Field) : (Field.allSyncL fs).length = fs.length := by
+  induction fs with
+  | nil => simp [Field.allSyncL]
+  | cons f rest ih => cases f; simp [Field.allSyncL, ih]
+
+theorem Mode.toSync_tname (m : Mode) : m.toSync = .tname ↔ m = .tname := by
+  cases m <;> simp [Mode.toSync]
+
+theorem spec_allSync_aux :
+    (∀ c, ∀ nn path, Spec.comp nn c.allSync path = Spec.comp nn c path) ∧
+    (∀ fs, ∀ path, Spec.fieldsOk (Field.allSyncL fs) path = Spec.fieldsOk fs path) ∧
+    (∀ cs, ∀ inn path i, Spec.items inn (Comp.allSyncL cs) path i = Spec.items inn cs path i) := by
+  apply Comp.allSync.mutual_induct
+    (motive_1 := fun c => ∀ nn path, Spec.comp nn c.allSync path = Spec.comp nn c path)
+    (motive_2 := fun fs => ∀ path, Spec.fieldsOk (Field.allSyncL fs) path = Spec.fieldsOk fs path)
+    (motive_3 := fun cs => ∀ inn path i, Spec.items inn (Comp.allSyncL cs) path i = Spec.items inn cs path i)
+  · intro inn cs ih nn path; simp [Comp.allSync, Spec.comp, ih]
+  · intro fs ih nn path; simp [Comp.allSync, Spec.comp, ih, allSyncL_length]
+  · intro nn path; simp [Comp.allSync]
+  · intro s nn path; simp [Comp.allSync]
+  · intro m nn path; simp [Comp.allSync]
+  · intro inn path i; simp [Comp.allSyncL]
+  · intro c rest ih1 ih2 inn path i; simp [Comp.allSyncL, Spec.items, ih1, ih2]
+  · intro path; simp [Field.allSyncL]
+  · intro key nn mode rerr c rest ih1 ih2 path
+    cases mode <;> simp [Field.allSyncL, Spec.fieldsOk, Mode.toSync, ih1, ih2]
+
+theorem spec_request_allSync (rq : Request) (sched : List Nat) :
+    Spec.request (rq.allSync sched) = Spec.request rq := by
+  simp [Spec.request, Request.allSync, spec_allSync_aux.2.1, allSyncL_length]
 
 end ApiFu.C02
